@@ -775,7 +775,7 @@ func cmapExtremes(c *hx.Ctx, seed uint64, n int) {
 }
 
 func Run(c *hx.Ctx) {
-	c.Rep.Rule = "valid documents of all seven formats from the harness writers (PDF in random physical layouts, DOCX, ODT, XLSX, PPTX, EPUB, HTML) x every single fault of the catalogue at every site (numbers -> 0,-1,2^31,2^63-1; references -> self/root/missing; delimiters removed/added; objects/members dropped/duplicated; stream data flipped/truncated; objects and stream data replaced by 20 thousand / 6 million nested opening delimiters (balanced and not); /N, /First and every header pair of every object stream at the edges of their types and out of order; every stream re-announced under every filter name/abbreviation/chain with edge decode parameters (full sweep on the first documents); /Length, xref entries, /W, /Prev, /Size, trailer; truncation at token boundaries; targeted field rewrites) ; structurally rich DOCX/ODT/PPTX (merged cells, nested lists, column grids) with every numeric attribute and element text -> 0,-1,2^31-1,2^31,2^32,999999999,2^63-1,-2^63 + sampled double faults + byte mutation + hostile token soup into the raw parsers; every case runs 5-6 public entry points under a 10 s deadline and a 3 GiB heap limit; every case is non-trivial"
+	c.Rep.Rule = "valid documents of all seven formats from the harness writers (PDF in random physical layouts, DOCX, ODT, XLSX, PPTX, EPUB, HTML) x every single fault of the catalogue at every site (numbers -> 0,-1,2^31,2^63-1; references -> self/root/missing; delimiters removed/added; objects/members dropped/duplicated; stream data flipped/truncated; objects and stream data replaced by 20 thousand / 6 million nested opening delimiters (balanced and not); /N, /First and every header pair of every object stream at the edges of their types and out of order; Form XObjects drawing Form XObjects (self, mutual, chains with fan-out k^d); every stream re-announced under every filter name/abbreviation/chain with edge decode parameters (full sweep on the first documents); /Length, xref entries, /W, /Prev, /Size, trailer; truncation at token boundaries; targeted field rewrites) ; structurally rich DOCX/ODT/PPTX (merged cells, nested lists, column grids) with every numeric attribute and element text -> 0,-1,2^31-1,2^31,2^32,999999999,2^63-1,-2^63 + sampled double faults + byte mutation + hostile token soup into the raw parsers; every case runs 5-6 public entry points under a 10 s deadline and a 3 GiB heap limit; every case is non-trivial"
 	xrefStreamOps(c)
 	gridOps(c)
 	ptreeOps(c)
@@ -808,6 +808,7 @@ func Run(c *hx.Ctx) {
 	for d := 0; d < c.N(2, 10); d++ {
 		objstmFaults(c, d, c.Seed*1000+uint64(d))
 	}
+	formFanout(c)
 	xlsxFaults(c, c.Seed, c.N(250, 5000))
 	for _, f := range ZipFormats {
 		zipFaults(c, f, c.Seed, c.N(140, 2500))
@@ -829,5 +830,9 @@ func Replay(c *hx.Ctx, m map[string]interface{}) {
 	hx.Remarshal(m, &k)
 	if k.Format == "pdf" {
 		runPDF(c, k, "replay")
+	}
+	if k.Format == "pdf-forms" && len(k.Faults) == 1 {
+		f := k.Faults[0]
+		runForm(c, formCase{Format: "pdf-forms", Shape: strings.TrimPrefix(f.Kind, "forms-"), K: f.Site, D: f.Ordinal, OwnRes: f.Value == "true"})
 	}
 }
